@@ -112,6 +112,41 @@ def dsaVerify (p q g y : Nat) (hash : Bytes) (r s : Int) : Bool :=
         let v := (C23.modPow g u1 p * C23.modPow y u2 p) % p % q
         v == r.toNat
 
+/-- the inner loop of `dsa.Sign`: `io.ReadFull(rand, buf)` with `len(buf) = n` until `0 < k < q`;
+    `none` = the reader ran dry.  (`n = 0` cannot happen: `Q.BitLen()` is a positive multiple of 8 when the loop is
+    entered; Go would spin forever on it.) -/
+def readK (n q : Nat) (rnd : Bytes) : Option (Nat × Bytes) :=
+  if _hn : n = 0 then none
+  else if _hl : rnd.length < n then none
+  else
+    let k := C23.os2ip (rnd.take n)
+    if 0 < k ∧ k < q then some (k, rnd.drop n) else readK n q (rnd.drop n)
+termination_by rnd.length
+decreasing_by simp only [List.length_drop]; omega
+
+/-- the `attempts` loop of `dsa.Sign` (10 rounds): `r = (g^k mod p) mod q`, `s = k⁻¹(z + x·r) mod q` with
+    `k⁻¹ = k^(q-2) mod q` (`fermatInverse`) and `z` the WHOLE digest as an integer (no truncation to the length of
+    `q`, exactly as `Verify`); a zero `r` or `s` starts the next round; no round left = `ErrInvalidPublicKey`. -/
+def signLoop (p q g x : Nat) (hash : Bytes) (n : Nat) : Nat → Bytes → Res (Nat × Nat)
+  | 0, _ => .err
+  | a + 1, rnd =>
+    match readK n q rnd with
+    | none => .err
+    | some (k, rnd') =>
+      let kInv := C23.modPow k (q - 2) q
+      let r := C23.modPow g k p % q
+      if r = 0 then signLoop p q g x hash n a rnd'
+      else
+        let z := C23.os2ip hash
+        let s := (x * r + z) % q * kInv % q
+        if s = 0 then signLoop p q g x hash n a rnd' else .ok (r, s)
+
+/-- `dsa.Sign(rand, priv, hash)`; `rnd` = the bytes the reader delivers to reads of more than one byte
+    (`randutil.MaybeReadByte` is neutralised by the harness). -/
+def dsaSign (p q g x : Nat) (hash rnd : Bytes) : Res (Nat × Nat) :=
+  if q = 0 ∨ p = 0 ∨ g = 0 ∨ x = 0 ∨ C23.bitLen q % 8 ≠ 0 then .err
+  else signLoop p q g x hash (C23.bitLen q / 8) 10 rnd
+
 /-! ### CheckSignatureFromKey -/
 
 inductive Key where
